@@ -13,6 +13,8 @@
 //  E. (program-point obligation) on EVERY level of the tree, after the system ran and its garbage was collected, removals and
 //     despawns are polled before any postponed command is replayed and before the call returns (C07/C08 at function level: a
 //     despawn caused by the run - or by collecting the run's garbage - is turned into reactions inside the same tree);
+//  F. (program-point obligation, C13) after the run and its garbage collection: if the target still exists with its storage component,
+//     that component holds exactly THE callback that just ran (as the run left it) - not a fresh one, not none;
 //  C. when the root call (counter == 0 on entry) returns after running its system, the buffer is empty and the counter is
 //     0 again (C11-function level).
 // Termination of the discard loop is not verified (cleanup_on_abort is an uninterpreted effect).
@@ -194,6 +196,8 @@ pub open spec fn kept_of(s: Seq<BufferedSyscommand>, command: SystemCommand) -> 
 //@lift.inv| forall|j: int| 0 <= j < verif_it.index@ ==> replay_step(#[trigger] verif_trace[j], verif_s[j], command, verif_trace[j + 1]),
 //@lift.inv| verif_kept@ == kept_of(verif_s.take(verif_it.index@ as int), command),
 //@loop 1 | invariant true, ensures world.queue().commands@.len() == 0,
+//@before if let Ok(mut entity_mut) | let ghost verif_cb = callback; let ghost verif_wr = *world;
+//@before #2 schedule_removal_and_despawn_reactors(world) | assert(target_storage(verif_wr, command) is Some ==> (target_storage(*world, command) is Some && target_storage(*world, command)->Some_0.callback == Some(verif_cb))); // clause F
 //@before let mut buffered_syscommands | assert(exists|w: World| #![trigger poll_eff(w)] *world == poll_eff(w)); // clause E
 //@before world.resource_mut::<CobwebCommandQueue<BufferedSyscommand>>().append | assert(buffered_syscommands@ == kept_of(verif_s, command)) by { assert(verif_s.take(verif_s.len() as int) =~= verif_s); }
 
